@@ -172,11 +172,11 @@ Definition cast_model (a b : mty) (safe : bool) (c : column) : res := run_kernel
    "representable in the target type"; lossy directions use the documented rule (decimals: round
    half away from zero; decimal -> integer and unit reduction: truncation toward zero; timestamp ->
    date32 / time of day: calendar day / time of day, i.e. floor). *)
-Definition repr (b : mty) (v : Z) : option Z :=
+Definition repr (b : mty) : Z -> option Z :=
   match b with
-  | TDec _ p _ => if in_prec p v then Some v else None
-  | TBool => Some (if v =? 0 then 0 else 1)
-  | _ => num_cast (native_bits b) (native_signed b) v
+  | TDec _ p _ => let ok := in_prec p in fun v => if ok v then Some v else None
+  | TBool => fun v => Some (if v =? 0 then 0 else 1)
+  | _ => num_cast (native_bits b) (native_signed b)
   end.
 
 (* nanoseconds per tick of the temporal types (None: not a scaled quantity) *)
@@ -196,11 +196,12 @@ Definition spec_conv (a b : mty) : option (Z -> option Z) :=
   | TDec _ _ s, TInt bits sg => Some (dec_int_spec s bits sg)
   | TDec _ _ s, (TTs _ _ | TDur _) => Some (dec_int_spec s 64 true)
   | (TInt _ _ | TTs _ _ | TDur _), TDec _ p s => Some (int_dec_spec p s)
+  | TInt bits sg, TDate64 => if is_i32 bits sg then Some (fun v => Some (v * MS_DAY)) else Some (repr b)   (* Int32 counts days *)
   | TTs u _, TDate32 => Some (fun v => Some (v / units_per_day u))
   | TTs u _, (TTime32 t | TTime64 t) => Some (fun v => Some ((v mod units_per_day u) * unit_mult t / unit_mult u))
   | _, _ =>
       match tick_ns a, tick_ns b with
-      | Some ta, Some tb => Some (fun v => repr b (Z.quot (v * ta) tb))
+      | Some ta, Some tb => Some (let r := repr b in fun v => r (Z.quot (v * ta) tb))
       | _, _ => Some (repr b)           (* integers, bool and reinterpretations of the backing integer *)
       end
   end.
